@@ -64,6 +64,9 @@ fn mod_decode(src: &mut crate::fuzz::Src) -> Option<ModCase> {
 
 fn limbs_var(lo: usize, hi: usize) -> BoxedStrategy<Vec<u64>> { (lo..=hi).prop_flat_map(limbs).boxed() }
 
+/// a result buffer that was used before: every routine has to overwrite all of its result words
+fn junk(len: usize) -> Vec<u64> { (0..len as u64).map(|i| (i + 3).wrapping_mul(0xD6E8_FEB8_6659_FD93) | 1).collect() }
+
 fn u128w(x: u128) -> [u64; 2] { [x as u64, (x >> 64) as u64] }
 
 pub fn mod_oracle(c: &ModCase) -> Verdict {
@@ -166,7 +169,7 @@ pub fn mod_oracle(c: &ModCase) -> Verdict {
         // divide_uint_mod_inplace: numerator = numerator mod q (word 0), quotient = floor(numerator / q)
         let len = c.words.len();
         let (bq, br) = BigU::from_limbs(&c.words).divrem(&BigU::from_u64(q));
-        let mut num = c.words.clone(); let mut quo = vec![0u64; len];
+        let mut num = c.words.clone(); let mut quo = junk(len);
         match catch(|| { hu::divide_uint_mod_inplace(&mut num, &m, &mut quo); (num, quo) }) {
             Ok((num, quo)) => {
                 if num[0] != br.to_u64().unwrap() || quo != bq.to_limbs(len) {
@@ -279,10 +282,10 @@ pub fn uint_oracle(c: &UintCase) -> Verdict {
         UOp::Add => {
             let s = ba.add(&bb);
             let want = (s.low_limbs(len), s.bit(64 * len) as u8);
-            t!(f, "add_uint", { let mut r = vec![0u64; len]; let cy = hu::add_uint(a, b, &mut r); (r, cy) }, want.clone(), "{}", ctx());
+            t!(f, "add_uint", { let mut r = junk(len); let cy = hu::add_uint(a, b, &mut r); (r, cy) }, want.clone(), "{}", ctx());
             t!(f, "add_uint_inplace", { let mut r = a.clone(); let cy = hu::add_uint_inplace(&mut r, b); (r, cy) }, want.clone(), "{}", ctx());
             if len == 2 {
-                t!(f, "add_u128", { let mut r = vec![0u64; 2]; let cy = hu::add_u128(a, b, &mut r); (r, cy) }, want.clone(), "{}", ctx());
+                t!(f, "add_u128", { let mut r = junk(2); let cy = hu::add_u128(a, b, &mut r); (r, cy) }, want.clone(), "{}", ctx());
                 t!(f, "add_u128_inplace", { let mut r = a.clone(); let cy = hu::add_u128_inplace(&mut r, b); (r, cy) }, want.clone(), "{}", ctx());
             }
             n += 2;
@@ -293,7 +296,7 @@ pub fn uint_oracle(c: &UintCase) -> Verdict {
             let bshort = &b[..(c.shift % len) + 1];
             let s = ba.add(&bu(bshort)).add_u64(c.carry as u64);
             let want = (s.low_limbs(rl), s.bit(64 * rl) as u8);
-            t!(f, "add_uint_carry", { let mut r = vec![0u64; rl]; let cy = hu::add_uint_carry(a, bshort, c.carry, &mut r); (r, cy) }, want, "bshort={bshort:x?} {}", ctx());
+            t!(f, "add_uint_carry", { let mut r = junk(rl); let cy = hu::add_uint_carry(a, bshort, c.carry, &mut r); (r, cy) }, want, "bshort={bshort:x?} {}", ctx());
             let s = ba.add(&bb).add_u64(c.carry as u64);
             t!(f, "add_uint_carry_inplace", { let mut r = a.clone(); let cy = hu::add_uint_carry_inplace(&mut r, b, c.carry); (r, cy) }, (s.low_limbs(len), s.bit(64 * len) as u8), "{}", ctx());
             n += 2;
@@ -301,7 +304,7 @@ pub fn uint_oracle(c: &UintCase) -> Verdict {
         UOp::AddU64 => {
             let s = ba.add_u64(c.w);
             let want = (s.low_limbs(len), s.bit(64 * len) as u8);
-            t!(f, "add_uint_u64", { let mut r = vec![0u64; len]; let cy = hu::add_uint_u64(a, c.w, &mut r); (r, cy) }, want.clone(), "{}", ctx());
+            t!(f, "add_uint_u64", { let mut r = junk(len); let cy = hu::add_uint_u64(a, c.w, &mut r); (r, cy) }, want.clone(), "{}", ctx());
             t!(f, "add_uint_u64_inplace", { let mut r = a.clone(); let cy = hu::add_uint_u64_inplace(&mut r, c.w); (r, cy) }, want, "{}", ctx());
             n += 2;
         }
@@ -310,10 +313,10 @@ pub fn uint_oracle(c: &UintCase) -> Verdict {
             let sub = bb.add_u64(bor as u64);
             let (want, wb) = if ba >= sub { (ba.sub(&sub).low_limbs(len), 0u8) } else { (two.add(&ba).sub(&sub).low_limbs(len), 1u8) };
             if c.op == UOp::Sub {
-                t!(f, "sub_uint", { let mut r = vec![0u64; len]; let x = hu::sub_uint(a, b, &mut r); (r, x) }, (want.clone(), wb), "{}", ctx());
+                t!(f, "sub_uint", { let mut r = junk(len); let x = hu::sub_uint(a, b, &mut r); (r, x) }, (want.clone(), wb), "{}", ctx());
                 t!(f, "sub_uint_inplace", { let mut r = a.clone(); let x = hu::sub_uint_inplace(&mut r, b); (r, x) }, (want.clone(), wb), "{}", ctx());
             } else {
-                t!(f, "sub_uint_borrow", { let mut r = vec![0u64; len]; let x = hu::sub_uint_borrow(a, b, bor, &mut r); (r, x) }, (want.clone(), wb), "{}", ctx());
+                t!(f, "sub_uint_borrow", { let mut r = junk(len); let x = hu::sub_uint_borrow(a, b, bor, &mut r); (r, x) }, (want.clone(), wb), "{}", ctx());
                 t!(f, "sub_uint_borrow_inplace", { let mut r = a.clone(); let x = hu::sub_uint_borrow_inplace(&mut r, b, bor); (r, x) }, (want.clone(), wb), "{}", ctx());
             }
             n += 2;
@@ -321,50 +324,50 @@ pub fn uint_oracle(c: &UintCase) -> Verdict {
         UOp::SubU64 => {
             let sub = BigU::from_u64(c.w);
             let (want, wb) = if ba >= sub { (ba.sub(&sub).low_limbs(len), 0u8) } else { (two.add(&ba).sub(&sub).low_limbs(len), 1u8) };
-            t!(f, "sub_uint_u64", { let mut r = vec![0u64; len]; let x = hu::sub_uint_u64(a, c.w, &mut r); (r, x) }, (want.clone(), wb), "{}", ctx());
+            t!(f, "sub_uint_u64", { let mut r = junk(len); let x = hu::sub_uint_u64(a, c.w, &mut r); (r, x) }, (want.clone(), wb), "{}", ctx());
             t!(f, "sub_uint_u64_inplace", { let mut r = a.clone(); let x = hu::sub_uint_u64_inplace(&mut r, c.w); (r, x) }, (want, wb), "{}", ctx());
             n += 2;
         }
         UOp::IncDec => {
             let s = ba.add_u64(1);
-            t!(f, "increment_uint", { let mut r = vec![0u64; len]; let x = hu::increment_uint(a, &mut r); (r, x) }, (s.low_limbs(len), s.bit(64 * len) as u8), "{}", ctx());
+            t!(f, "increment_uint", { let mut r = junk(len); let x = hu::increment_uint(a, &mut r); (r, x) }, (s.low_limbs(len), s.bit(64 * len) as u8), "{}", ctx());
             t!(f, "increment_uint_inplace", { let mut r = a.clone(); let x = hu::increment_uint_inplace(&mut r); (r, x) }, (s.low_limbs(len), s.bit(64 * len) as u8), "{}", ctx());
             let (want, wb) = if ba.is_zero() { (two.sub(&BigU::one()).low_limbs(len), 1u8) } else { (ba.sub(&BigU::one()).low_limbs(len), 0u8) };
-            t!(f, "decrement_uint", { let mut r = vec![0u64; len]; let x = hu::decrement_uint(a, &mut r); (r, x) }, (want.clone(), wb), "{}", ctx());
+            t!(f, "decrement_uint", { let mut r = junk(len); let x = hu::decrement_uint(a, &mut r); (r, x) }, (want.clone(), wb), "{}", ctx());
             t!(f, "decrement_uint_inplace", { let mut r = a.clone(); let x = hu::decrement_uint_inplace(&mut r); (r, x) }, (want, wb), "{}", ctx());
             n += 4;
         }
         UOp::Negate => {
             let want = if ba.is_zero() { vec![0u64; len] } else { two.sub(&ba).low_limbs(len) };
-            t!(f, "negate_uint", { let mut r = vec![0u64; len]; hu::negate_uint(a, &mut r); r }, want.clone(), "{}", ctx());
+            t!(f, "negate_uint", { let mut r = junk(len); hu::negate_uint(a, &mut r); r }, want.clone(), "{}", ctx());
             t!(f, "negate_uint_inplace", { let mut r = a.clone(); hu::negate_uint_inplace(&mut r); r }, want, "{}", ctx());
             n += 2;
         }
         UOp::ShiftLeft => {
             let want = ba.shl(c.shift).low_limbs(len);
-            t!(f, "left_shift_uint", { let mut r = vec![0u64; len]; hu::left_shift_uint(a, c.shift, len, &mut r); r }, want.clone(), "{}", ctx());
+            t!(f, "left_shift_uint", { let mut r = junk(len); hu::left_shift_uint(a, c.shift, len, &mut r); r }, want.clone(), "{}", ctx());
             t!(f, "left_shift_uint_inplace", { let mut r = a.clone(); hu::left_shift_uint_inplace(&mut r, c.shift, len); r }, want, "{}", ctx());
             n += 2;
         }
         UOp::ShiftRight => {
             let want = ba.shr(c.shift).low_limbs(len);
-            t!(f, "right_shift_uint", { let mut r = vec![0u64; len]; hu::right_shift_uint(a, c.shift, len, &mut r); r }, want.clone(), "{}", ctx());
+            t!(f, "right_shift_uint", { let mut r = junk(len); hu::right_shift_uint(a, c.shift, len, &mut r); r }, want.clone(), "{}", ctx());
             t!(f, "right_shift_uint_inplace", { let mut r = a.clone(); hu::right_shift_uint_inplace(&mut r, c.shift, len); r }, want, "{}", ctx());
             n += 2;
         }
         UOp::Shift128 => {
             let v = [a[0], b[0]]; let s = (c.shift + c.rlen * 13) % 128;
             let bv = bu(&v);
-            t!(f, "left_shift_u128", { let mut r = vec![0u64; 2]; hu::left_shift_u128(&v, s, &mut r); r }, bv.shl(s).low_limbs(2), "v={v:x?} s={s}");
+            t!(f, "left_shift_u128", { let mut r = junk(2); hu::left_shift_u128(&v, s, &mut r); r }, bv.shl(s).low_limbs(2), "v={v:x?} s={s}");
             t!(f, "left_shift_u128_inplace", { let mut r = v.to_vec(); hu::left_shift_u128_inplace(&mut r, s); r }, bv.shl(s).low_limbs(2), "v={v:x?} s={s}");
-            t!(f, "right_shift_u128", { let mut r = vec![0u64; 2]; hu::right_shift_u128(&v, s, &mut r); r }, bv.shr(s).low_limbs(2), "v={v:x?} s={s}");
+            t!(f, "right_shift_u128", { let mut r = junk(2); hu::right_shift_u128(&v, s, &mut r); r }, bv.shr(s).low_limbs(2), "v={v:x?} s={s}");
             t!(f, "right_shift_u128_inplace", { let mut r = v.to_vec(); hu::right_shift_u128_inplace(&mut r, s); r }, bv.shr(s).low_limbs(2), "v={v:x?} s={s}");
             n += 4;
         }
         UOp::Shift192 => {
             let v = [a[0], b[0], c.m[0]]; let s = (c.shift + c.rlen * 29) % 192;
             let bv = bu(&v);
-            t!(f, "left_shift_u192", { let mut r = vec![0u64; 3]; hu::left_shift_u192(&v, s, &mut r); r }, bv.shl(s).low_limbs(3), "v={v:x?} s={s}");
+            t!(f, "left_shift_u192", { let mut r = junk(3); hu::left_shift_u192(&v, s, &mut r); r }, bv.shl(s).low_limbs(3), "v={v:x?} s={s}");
             t!(f, "left_shift_u192_inplace", { let mut r = v.to_vec(); hu::left_shift_u192_inplace(&mut r, s); r }, bv.shl(s).low_limbs(3), "v={v:x?} s={s}");
             // destination pre-filled with unrelated data: the result must not depend on it
             t!(f, "right_shift_u192", { let mut r = vec![c.w, !c.w, c.w ^ 0x5555]; hu::right_shift_u192(&v, s, &mut r); r }, bv.shr(s).low_limbs(3), "v={v:x?} s={s} (destination pre-filled)");
@@ -373,16 +376,16 @@ pub fn uint_oracle(c: &UintCase) -> Verdict {
         }
         UOp::HalfRoundUp => {
             let want = ba.shr(1).add_u64(ba.is_odd() as u64).low_limbs(len);
-            t!(f, "half_round_up_uint", { let mut r = vec![0u64; len]; hu::half_round_up_uint(a, &mut r); r }, want.clone(), "{}", ctx());
+            t!(f, "half_round_up_uint", { let mut r = junk(len); hu::half_round_up_uint(a, &mut r); r }, want.clone(), "{}", ctx());
             t!(f, "half_round_up_uint_inplace", { let mut r = a.clone(); hu::half_round_up_uint_inplace(&mut r); r }, want, "{}", ctx());
             n += 2;
         }
         UOp::Bitwise => {
             let z = |g: fn(u64, u64) -> u64| -> Vec<u64> { a.iter().zip(b.iter()).map(|(x, y)| g(*x, *y)).collect() };
-            t!(f, "and_uint", { let mut r = vec![0u64; len]; hu::and_uint(a, b, &mut r); r }, z(|x, y| x & y), "{}", ctx());
-            t!(f, "or_uint", { let mut r = vec![0u64; len]; hu::or_uint(a, b, &mut r); r }, z(|x, y| x | y), "{}", ctx());
-            t!(f, "xor_uint", { let mut r = vec![0u64; len]; hu::xor_uint(a, b, &mut r); r }, z(|x, y| x ^ y), "{}", ctx());
-            t!(f, "not_uint", { let mut r = vec![0u64; len]; hu::not_uint(a, &mut r); r }, z(|x, _| !x), "{}", ctx());
+            t!(f, "and_uint", { let mut r = junk(len); hu::and_uint(a, b, &mut r); r }, z(|x, y| x & y), "{}", ctx());
+            t!(f, "or_uint", { let mut r = junk(len); hu::or_uint(a, b, &mut r); r }, z(|x, y| x | y), "{}", ctx());
+            t!(f, "xor_uint", { let mut r = junk(len); hu::xor_uint(a, b, &mut r); r }, z(|x, y| x ^ y), "{}", ctx());
+            t!(f, "not_uint", { let mut r = junk(len); hu::not_uint(a, &mut r); r }, z(|x, _| !x), "{}", ctx());
             t!(f, "and_uint_inplace", { let mut r = a.clone(); hu::and_uint_inplace(&mut r, b); r }, z(|x, y| x & y), "{}", ctx());
             t!(f, "or_uint_inplace", { let mut r = a.clone(); hu::or_uint_inplace(&mut r, b); r }, z(|x, y| x | y), "{}", ctx());
             t!(f, "xor_uint_inplace", { let mut r = a.clone(); hu::xor_uint_inplace(&mut r, b); r }, z(|x, y| x ^ y), "{}", ctx());
@@ -393,7 +396,7 @@ pub fn uint_oracle(c: &UintCase) -> Verdict {
             let want = ba.mul_u64(c.w).low_limbs(c.rlen);
             t!(f, "multiply_uint_u64", { let mut r = vec![0xdeadu64; c.rlen]; hu::multiply_uint_u64(a, c.w, &mut r); r }, want, "{}", ctx());
             let p = a[0] as u128 * c.w as u128;
-            t!(f, "multiply_u64_u64", { let mut r = vec![0u64; 2]; hu::multiply_u64_u64(a[0], c.w, &mut r); r }, vec![p as u64, (p >> 64) as u64], "{}", ctx());
+            t!(f, "multiply_u64_u64", { let mut r = junk(2); hu::multiply_u64_u64(a[0], c.w, &mut r); r }, vec![p as u64, (p >> 64) as u64], "{}", ctx());
             t!(f, "multiply_u64_high_word", { let mut r = 0u64; hu::multiply_u64_high_word(a[0], c.w, &mut r); r }, (p >> 64) as u64, "{}", ctx());
             n += 3;
         }
@@ -485,16 +488,16 @@ pub fn uint_oracle(c: &UintCase) -> Verdict {
             let mctx = || format!("a={av:x?} b={bv:x?} modulus={mv:x?}");
             match c.op {
                 UOp::IncDecMod => {
-                    t!(f, "increment_uint_mod", { let mut r = vec![0u64; len]; hu::increment_uint_mod(&av, &mv, &mut r); r }, ra.add_u64(1).rem(&bm).to_limbs(len), "{}", mctx());
-                    t!(f, "decrement_uint_mod", { let mut r = vec![0u64; len]; hu::decrement_uint_mod(&av, &mv, &mut r); r }, ra.add(&bm).sub(&BigU::one()).rem(&bm).to_limbs(len), "{}", mctx());
+                    t!(f, "increment_uint_mod", { let mut r = junk(len); hu::increment_uint_mod(&av, &mv, &mut r); r }, ra.add_u64(1).rem(&bm).to_limbs(len), "{}", mctx());
+                    t!(f, "decrement_uint_mod", { let mut r = junk(len); hu::decrement_uint_mod(&av, &mv, &mut r); r }, ra.add(&bm).sub(&BigU::one()).rem(&bm).to_limbs(len), "{}", mctx());
                     n += 2;
                 }
-                UOp::NegateMod => { t!(f, "negate_uint_mod", { let mut r = vec![0u64; len]; hu::negate_uint_mod(&av, &mv, &mut r); r }, bm.sub(&ra).rem(&bm).to_limbs(len), "{}", mctx()); n += 1; }
+                UOp::NegateMod => { t!(f, "negate_uint_mod", { let mut r = junk(len); hu::negate_uint_mod(&av, &mv, &mut r); r }, bm.sub(&ra).rem(&bm).to_limbs(len), "{}", mctx()); n += 1; }
                 UOp::Div2Mod => {
                     let want = if ra.is_odd() { ra.add(&bm).shr(1) } else { ra.shr(1) };
                     let carry = ra.is_odd() && ra.add(&bm).bit(64 * len);
                     let key = if carry { "div2_uint_mod/carry" } else { "div2_uint_mod" };
-                    match catch(|| { let mut r = vec![0u64; len]; hu::div2_uint_mod(&av, &mv, &mut r); r }) {
+                    match catch(|| { let mut r = junk(len); hu::div2_uint_mod(&av, &mv, &mut r); r }) {
                         Ok(g) => if g != want.to_limbs(len) { f.add(format!("C08/{key}"), format!("div2_uint_mod: got {g:x?}, want {:x?} ({})", want.to_limbs(len), mctx())); },
                         Err(p) => f.add(format!("C08/{key}"), format!("div2_uint_mod panicked: {p} ({})", mctx())),
                     }
@@ -502,11 +505,11 @@ pub fn uint_oracle(c: &UintCase) -> Verdict {
                 }
                 UOp::AddMod => {
                     let want = ra.add(&rb).rem(&bm).to_limbs(len);
-                    t!(f, "add_uint_mod", { let mut r = vec![0u64; len]; hu::add_uint_mod(&av, &bv, &mv, &mut r); r }, want.clone(), "{}", mctx());
+                    t!(f, "add_uint_mod", { let mut r = junk(len); hu::add_uint_mod(&av, &bv, &mv, &mut r); r }, want.clone(), "{}", mctx());
                     t!(f, "add_uint_mod_inplace", { let mut r = av.clone(); hu::add_uint_mod_inplace(&mut r, &bv, &mv); r }, want, "{}", mctx());
                     n += 2;
                 }
-                _ => { t!(f, "sub_uint_mod", { let mut r = vec![0u64; len]; hu::sub_uint_mod(&av, &bv, &mv, &mut r); r }, ra.add(&bm).sub(&rb).rem(&bm).to_limbs(len), "{}", mctx()); n += 1; }
+                _ => { t!(f, "sub_uint_mod", { let mut r = junk(len); hu::sub_uint_mod(&av, &bv, &mv, &mut r); r }, ra.add(&bm).sub(&rb).rem(&bm).to_limbs(len), "{}", mctx()); n += 1; }
             }
         }
         UOp::SetBit => {
